@@ -4,7 +4,7 @@ BASE_NOTE = ("Trusted: Coq 8.16.1 kernel (vm_compute for witnesses/examples only
              "the correspondence harness (generators, exact-rational canonicalisation, observation mapping); CPython 3.12/numpy "
              "float64 semantics on the exact (dyadic) input families. The theorems are about the Gallina model; the tie to /repo/src "
              "is the correspondence run on every check (sampled, not proved). ")
-SOURCE_COMMITS = ["bc49a1c", "e3a7f92", "9ed7728", "007ee91", "c29e4c1", "17a47e5", "867807e", "949de5f", "5cc174a", "d64e197", "df761a4", "5d29398", "7a3c11a", "0a21c22", "aeeccf6", "59481a8"]   # "fix:" commits only (no guarded hooks exist)
+SOURCE_COMMITS = ["bc49a1c", "e3a7f92", "9ed7728", "007ee91", "c29e4c1", "17a47e5", "867807e", "949de5f", "5cc174a", "d64e197", "df761a4", "5d29398", "7a3c11a", "0a21c22", "aeeccf6", "59481a8", "b5aca95", "679700e", "ca2559c"]   # "fix:" commits only (no guarded hooks exist)
 NOTES = ("Every check: (1) rebuilds the Coq development incrementally and re-checks coq/Props/<id>.v (grep gate for Admitted/Axiom/...); "
          "(2) runs physt from /repo/src and the extracted model on the same seeded cases; (3) applies the extracted check_<id> to the "
          "implementation's observation. VIOLATION lines carry a replay file; 'no-failing-input-found' is appended when only the "
@@ -48,6 +48,18 @@ CLAIMED = {
          "recorded finding F19. Every generated history is executed on physt step by step (returned index, find_bin before the "
          "call, state untouched by find_bin, contents, errors2, missed) and compared with one-shot construction."),
    note=BASE_NOTE + "Modelled, not verified: dtype coercion inside fill/fill_n (C13), statistics update (C14), adaptive growth (C04)."),
+ "C04": dict(
+   technique="Coq proofs in exact arithmetic (coverage after growth, grid/contents kept, monotone range, conservation) + binary64 witness + extracted-model correspondence with arithmetic-independent invariants",
+   text=("Theorems (exact rationals, any positive width / shift / alignment): after _force_bin_existence_single the value lies "
+         "inside the bins; width and shift are unchanged, the range only grows and the returned bin map is the displacement of "
+         "the old contents; later growth never uncovers an earlier value; moving contents into the grown array conserves them "
+         "(any dimension). A vm_compute witness over PrimFloat shows why binary64 needs the re-check that the repair added. "
+         "Exact family (dyadic widths/values): edges, contents, returned indices and the exact span are compared with the "
+         "extracted model after every call. Float family (0.1, 0.2, 0.3, 0.7, 1e-3, 2.5, 1e6/3; literals such as 1.7; nextafter "
+         "neighbours of edges): the extracted checker verifies on physt's own edges that every value lies in the bin reported "
+         "for it, total = weight entered, nothing missed, and the result equals one-shot construction over the final bins."),
+   note=BASE_NOTE + "binary64 arithmetic of the grid is NOT modelled beyond the witness; for the float family the model is not "
+        "the oracle, only the invariants are. N-d arrays are kept small (the model's lookups are quadratic)."),
  "C05": dict(
    technique="Coq proofs (pointwise sum, commutativity/associativity, promotion lattice, conservation on the union grid) + extracted-model correspondence",
    text=("Theorems: same-bins addition is the pointwise sum of contents/errors2/missed with dtype = promote_types (a semilattice "
